@@ -61,7 +61,13 @@ Cancel == \E cid \in DOMAIN R.call \cap MayCancel :
             /\ R' = DoCancel(R, cid)
             /\ UNCHANGED need
 
-Next == Start \/ Send \/ Recv \/ CallBack \/ Reply \/ Return \/ Cancel
+\* the pending table forgets the late reply of an abandoned call (bounded table, oldest entries first)
+Evict == \E ep \in {"A", "B"} : \E m \in R.pend[ep] :
+            /\ CanEvict(R, ep, m)
+            /\ R' = DoEvict(R, ep, m)
+            /\ UNCHANGED need
+
+Next == Start \/ Send \/ Recv \/ CallBack \/ Reply \/ Return \/ Cancel \/ Evict
 
 Fair == WF_vars(Send) /\ WF_vars(Recv) /\ WF_vars(CallBack) /\ WF_vars(Reply) /\ WF_vars(Return) /\ WF_vars(Start)
 Spec == Init /\ [][Next]_vars /\ Fair
